@@ -927,6 +927,7 @@ func c20Driver(d *core.Driver) int {
 		return seen
 	}
 	roundsAborted := false
+	rerunRounds := 0
 	concRound := func(round int, gp [2]int, shared bool) {
 		if roundsAborted {
 			return
@@ -939,6 +940,13 @@ func c20Driver(d *core.Driver) int {
 		name := fmt.Sprintf("%s-round%d-g%d-p%d", tag, round, gp[0], gp[1])
 		r, e := runChild(raceBin, name, map[string]any{"Mode": "concurrent", "Seed": seed, "Reps": reps, "G": gp[0], "Procs": gp[1], "Ref": "", "SharedPDF": shared},
 			[]string{"GORACE=halt_on_error=0 log_path=" + filepath.Join(work, logName)}, 8*time.Minute)
+		if r == nil && strings.HasPrefix(e, "watchdog fired") {
+			// a wall-clock bound is no verdict on a loaded machine: the round is run once more, alone and
+			// with three times the budget, before "never returns" is believed
+			rerunRounds++
+			r, e = runChild(raceBin, name+"-again", map[string]any{"Mode": "concurrent", "Seed": seed, "Reps": reps, "G": gp[0], "Procs": gp[1], "Ref": "", "SharedPDF": shared},
+				[]string{"GORACE=halt_on_error=0 log_path=" + filepath.Join(work, logName)}, 25*time.Minute)
+		}
 		if r == nil {
 			// a round takes 10-40 s on its own; the watchdog is a wall-clock bound 12 times that. A round
 			// that dies or never returns is a violation (a call "returns what it returns when run alone");
@@ -1049,6 +1057,7 @@ func c20Driver(d *core.Driver) int {
 		"distinct_overlapping_operation_pairs": len(pairs),
 		"overlapping_operation_pairs":          pairs,
 		"pool_objects_released":                puts,
+		"rounds_rerun_after_watchdog":          rerunRounds,
 		"pool_objects_poisoned":                poisoned,
 		"stale_reads_of_released_objects":      stale,
 		"race_reports_deduplicated":            raceSummaries,
